@@ -56,6 +56,13 @@ func SetNowHook(f func() time.Time) { verifsim.NowHook = f }
 // ClockReads is the number of clock reads by go-cose so far.
 func ClockReads() uint64 { return verifsim.ClockReads }
 
+// SetEnvHook installs the process environment every os.Getenv/LookupEnv
+// inside go-cose reads (nil: the machine's).
+func SetEnvHook(f func(name string) (string, bool)) { verifsim.EnvHook = f }
+
+// EnvReads is the number of environment reads by go-cose so far.
+func EnvReads() uint64 { return verifsim.EnvReads }
+
 // ---------------------------------------------------------------------------
 // The scheduler.  Caller tasks are real goroutines, but exactly one is
 // runnable at any instant and the successor at every yield point is a pure
